@@ -98,7 +98,8 @@ def table(rng, case, idx):
     if 'solid' not in kinds:
         subs.append(S.solid('solZ', 123.4))
     if 'enzyme' not in kinds:
-        subs.append(S.enzyme('enzZ', '7 U/mg'))
+        from pv.gen import declared_enzyme
+        subs.append(declared_enzyme(S, 'enzZ', rng.choice(['7 U/mg', '7000 U/g', '0.142857142857 mg/U', '1.42857142857e-4 g/U'])))
     units = [p + b for b in BASES for p in PREF]
     full = (case.get('params') or {}).get('full')
     amounts = [0, 1, rng.uniform(0.001, 1000), 1e-9, 1e9] if full else [0, 1, rng.uniform(0.001, 1000)]
